@@ -211,7 +211,7 @@ theorem ptrQualWords_facts (c v r : Bool) :
   rw [hb] at h7
   simpa using h7
 
-theorem not_mem_sp_star {c : Ch} {L q : Str} (h1 : c ∉ L) (h2 : c ≠ 32) (h3 : c ≠ 42) (h4 : c ∉ q) :
+theorem not_mem_sp_star {c : Nat} {L q : Str} (h1 : c ∉ L) (h2 : c ≠ 32) (h3 : c ≠ 42) (h4 : c ∉ q) :
     c ∉ L ++ 32 :: 42 :: q := by
   intro h
   rcases List.mem_append.mp h with h | h
@@ -222,7 +222,7 @@ theorem not_mem_sp_star {c : Ch} {L q : Str} (h1 : c ∉ L) (h2 : c ≠ 32) (h3 
       · exact h3 h
       · exact h4 h
 
-theorem not_mem_star {c : Ch} {q : Str} (h3 : c ≠ 42) (h4 : c ∉ q) : c ∉ 42 :: q := by
+theorem not_mem_star {c : Nat} {q : Str} (h3 : c ≠ 42) (h4 : c ∉ q) : c ∉ 42 :: q := by
   intro h
   rcases List.mem_cons.mp h with h | h
   · exact h3 h
@@ -310,7 +310,7 @@ theorem parseLevel_arr {L : Str} (hL : GoodL L) {inn : Option CType} {base : CTy
 
 /-! ### the main induction -/
 
-theorem mem_of_mem_sep {c : Ch} {x : Str} (h : c ∈ sep x) : c = 32 ∨ c ∈ x := by
+theorem mem_of_mem_sep {c : Nat} {x : Str} (h : c ∈ sep x) : c = 32 ∨ c ∈ x := by
   unfold sep at h
   split at h
   · simp at h
